@@ -60,19 +60,22 @@ Theorem history_refines_spec : forall sub tbl h, wf_tbl tbl = true ->
 Proof. exact history_refines_spec_l. Qed.
 Print Assumptions history_refines_spec.
 
-(* the two other kinds of member that can be declared with the type parameter.
-   T-typed method parameter (after fixes dcfa9d9, 895602f): exact for every value except null *)
+(* the two other kinds of member that can be declared with the type parameter: a method parameter
+   `T $x` (after fixes dcfa9d9, 895602f) and a constructor-promoted `public T $v` (after fix
+   dbde2bb) accept exactly the values of the instantiation's argument — for every value except null *)
 Theorem method_param_exactly_A_partial : forall sub n A v, v <> VNull ->
   method_param_accepts sub (Some (DGen n)) [(n, A)] v = of_type sub v A.
 Proof. exact method_param_exact_l. Qed.
 Print Assumptions method_param_exactly_A_partial.
-(* full statement (forall v, method_param_accepts ... v = of_type sub v A) REFUTED by null (the
-   parameter boundary lets null through for every declared type: C07 finding type:param:method:null;
-   here C19 member=method-param:n), and REFUTED altogether for a constructor-promoted `public T $v`
-   of a generic class, which accepts every value (C19 member=ctor-promoted) *)
+Theorem ctor_promoted_exactly_A_partial : forall sub n A v, v <> VNull ->
+  ctor_promoted_accepts sub (Some (DGen n)) [(n, A)] v = of_type sub v A.
+Proof. exact ctor_promoted_exact_l. Qed.
+Print Assumptions ctor_promoted_exactly_A_partial.
+(* full statements (for all v) REFUTED by null: the parameter boundary lets null through for every
+   declared type (C07 finding type:param:*:null; here member=method-param:n, member=ctor-promoted:n) *)
 Theorem method_param_null_refuted : exists sub A,
   method_param_accepts sub (Some (DGen "T")) [("T", A)] VNull = true /\ of_type sub VNull A = false.
 Proof. exact method_param_null_refuted_l. Qed.
-Theorem ctor_promoted_refuted : exists sub A v,
-  ctor_promoted_accepts (Some (DGen "T")) [("T", A)] v = true /\ of_type sub v A = false.
-Proof. exact ctor_promoted_refuted_l. Qed.
+Theorem ctor_promoted_null_refuted : exists sub A,
+  ctor_promoted_accepts sub (Some (DGen "T")) [("T", A)] VNull = true /\ of_type sub VNull A = false.
+Proof. exact ctor_promoted_null_refuted_l. Qed.
